@@ -2,3 +2,5 @@ mod page_token;
 mod parser;
 pub(crate) mod publisher;
 pub(crate) mod subscriber;
+#[cfg(deltio_verif)]
+pub mod verif;
